@@ -1,3 +1,32 @@
+# C20 - memory safety: layer-0 lemmas on the real substdio/getln/stralloc code + per-kernel obligations.
+#
+# kills: (hand-made mutants of /repo in scratch worktrees, tools/mutant.sh; every one printed VIOLATION with a native replay rc 1)
+#   substdo.c   substdio_put `len > n - p` -> `len > n`                      l0_substdio_out (OOB write in byte_copy, ASan)
+#   substdo.c   substdio_bput free space `s->n - s->p` -> `+ 1`              l0_substdio_out
+#   substdo.c   allwrite drops `buf += w`                                    l0_substdio_out ("in order")
+#   substdo.c   substdio_put drops `if (n > len) n = len`                    l0_substdio_out_huge ("direct write stays inside the caller's data")
+#   substdi.c   getthis copies from s->x + s->n + 1                          l0_substdio_in (OOB read)
+#   substdi.c   feed: shift `if (q > 0)` -> `if (q > 1)`                     l0_substdio_in ("unread buffered bytes ... in order")
+#   substdi.c   getthis `q > 0 / r = len` -> `q >= 0 / r = len + 1`          l0_substdio_in
+#   substdi.c   substdio_get direct read asks for len + 1                    l0_substdio_in (write past the caller's block)
+#   getln2.c    `*clen = i + 1` -> `i`; `i < n` -> `i <= n`; drop readyplus  l0_getln (three mutants)
+#   gen_allocdefs.h  drop the mul-overflow check; drop the add-overflow check  alloc_arith_* (struct instances / all instances + catb)
+#   stralloc_catb.c  drop the n+1 overflow check                             alloc_arith_stralloc_catb
+#   quote.c     drop the 2*len overflow check                                alloc_arith_quote_doit
+#   qmail-qmtpd.c / qmail-qmqpd.c  getlen: drop / weaken the 200000000 guard  netstring_getlen_*
+#   qmail-qmtpd.c  failure.s[failure.len - 2]                                netstring_qmtpd_recipients
+#   dns.c       findname: drop the `i < 10` check; findip: drop the responseend check; pre-fix tree 356f27c   dns_walkers
+#   qmail-rspawn.c pre-fix tree 356f27c (strlen past len); qmail-lspawn.c report `i <= len`   report_*
+#   hfield.c    hmatch: drop `if (i >= len) return 0`                        hfield
+#   token822.c  count pass forgets ';'                                       token822_parse
+#   commands.c  readyplus(&cmd,0)                                            commands_line
+#   control.c   striptrailingwhitespace `len >= 0`                           control_readline
+#   constmap.c  entry count loop `j < len - 1`                               control_constmap
+#   ip.c        ip_scan returns len + 1                                      scan_ip
+#   headerbody.c getsa: drop the appended newline                            headerbody
+# not killable inside the bounds (stated, not hidden): qmtpd `>= 1000` -> `>= 100000` (needs a 1000-byte recipient: C07 template 5),
+# qmtpd drop `len >= biglen` (no memory effect), headerbody nextline.s[1] (stale byte inside the buffer), cdb_seek `++h2 > lenhash` in
+# corrupt mode (no memory effect; killed by C11 cdb_seek_spec).
 from vlib import Obl, Prog
 
 OPS_OUT = {0: "substdio_put", 1: "substdio_bput", 2: "substdio_putflush", 3: "substdio_flush"}
@@ -170,6 +199,30 @@ def obligations(tier):
             claim="getlen() returns only lengths <= 2000000009 that are the decimal value of the digits before ':', else exits 111/100/0; "
                   "no overflow", 
             expect_witnesses=["returned", "maximum_2000000009", "empty_digits_is_zero", "too_long_111", "malformed_100", "eof_0"]))
+    obls.append(Obl(
+        "netstring_qmtpd_recipients", "qmtprcpt.c",
+        progs=[Prog("qmail-qmtpd.c", sub=[(r"^main\(\)", "prog_main()", 1)])], lib=["ideal_substdio.c"],
+        repo=["fmt_ulong.c", "fmt_str.c", "stralloc_opys.c", "stralloc_opyb.c", "stralloc_pend.c", "byte_copy.c", "scan_ulong.c"],
+        sysrename=["_exit", "alarm", "chdir", "time"],
+        grid=[{"M": m} for m in ((6, 9, 12) if quick else (4, 6, 8, 9, 10, 11, 12, 13, 14))],
+        # the more specific key (inner length loop) must come first: the outer `for (;;) {` text is a substring of it
+        unwind=lambda p: {"prog_main~      for (;;) {": p["M"] + 2, "prog_main~for (;;) {": 2,
+                          "prog_main~while (biglen > 0)": p["M"] // 2 + 2,
+                          "prog_main~        for (i = 0;i < len;++i)": p["M"] + 1,      # recipient bytes (8 blanks: the inner ones)
+                          "prog_main~for (i = 0;i < len;++i)": 2,                       # sender bytes: the template's sender is empty
+                          "prog_main~i < failure.len": p["M"] // 2 + 2, "getlen": p["M"] + 2, "check_addr": p["M"] + 2,
+                          "strlen": 72, "fmt_str": 72, "fmt_ulong": 12, "substdio_put": 72},
+        unwind_default=4, timeout=900,
+        functions=["qmail-qmtpd.c:main", "qmail-qmtpd.c:getlen", "qmail-qmtpd.c:getcomma"],
+        cuts=["qmail_*, received, rcpthosts, control_*, env_get -> observing stubs (C07)"],
+        stubs=["substdio: ideal streams, EOF => _exit(0) as saferead does", "stralloc_ready*: `failure` pre-sized"],
+        assumes=["connection = '1:\\n,' '0:,' + M arbitrary bytes (grid) + EOF, the client leaves after its first complete package; "
+                 "RELAYCLIENT unset; rcpthosts verdict arbitrary"],
+        outside=["longer recipient sections; recipients of 1000 bytes (C07 template 5)"],
+        claim="recipients section of qmail-qmtpd main: every index into buf[1000] and failure.s is in range, recipients handed on are "
+              "NUL-terminated and < 1000 bytes, int counters do not overflow, exits only 0/100/111",
+        expect_witnesses=lambda p: ["badproto_100", "eof_0", "recipient_accepted_then_eof"] + (["two_recipients"] if p["M"] >= 9 else [])
+        + (["resources_111"] if p["M"] >= 11 else [])))
     # ---------------------------------------------------------------- (f) dns.c record walkers
     obls.append(Obl(
         "dns_walkers", "dnswalk.c",
@@ -194,11 +247,12 @@ def obligations(tier):
         claim="scan_ulong/ip_scan/ip_scanbracket never read behind the terminating NUL and return an index inside the string",
         expect_witnesses=lambda p: ["scanned"] + (["all_digits"] if p["S"] else []) + (["ip_accepted"] if p["S"] >= 7 else [])
         + (["bracketed_ip_accepted"] if p["S"] >= 9 else [])))
-    obls.append(Obl("fmt_ulong_all", "fmtscan.c", repo=FS, defines={"KIND": 1}, unwind={"fmt_ulong": 21}, unwind_default=22,
+    obls.append(Obl("fmt_ulong_32", "fmtscan.c", repo=FS, defines={"KIND": 1}, unwind={"fmt_ulong": 11}, unwind_default=22,
         timeout=900, backend="cadical",
-        functions=["fmt_ulong.c:fmt_ulong"], assumes=["every 64-bit value"],
-        claim="fmt_ulong announces 1..20 bytes (< FMT_ULONG), writes exactly that many, and they are the decimal digits of the value",
-        expect_witnesses=["formatted", "twenty_digits", "zero"]))
+        functions=["fmt_ulong.c:fmt_ulong"], assumes=["every value below 2^32"],
+        outside=["values >= 2^32 (no verdict in 900 s for all 64-bit values: 40 64-bit dividers)"],
+        claim="fmt_ulong announces 1..10 bytes (< FMT_ULONG) for u < 2^32 and writes exactly that many decimal digits",
+        expect_witnesses=["formatted", "ten_digits", "zero"]))
     obls.append(Obl("fmt_uint0", "fmtscan.c", repo=FS, defines={"KIND": 2}, unwind={"fmt_ulong": 7, "fmt_uint0": 9}, unwind_default=10,
         timeout=600, backend="cadical",
         functions=["fmt_uint0.c:fmt_uint0", "fmt_uint.c:fmt_uint"], assumes=["u < 10^6, field width n <= 8"], outside=["larger values / widths"],
@@ -212,8 +266,87 @@ def obligations(tier):
         unwind_default=10, timeout=900, backend="cadical",
         functions=["date822fmt.c:date822fmt"], assumes=["fields inside the ranges proved by datetime_ranges, year <= 9999"],
         outside=["years after 9999"],
-        claim="date822fmt returns 25..27 <= DATE822FMT, the same with and without buffer, and writes exactly that many bytes",
-        expect_witnesses=["formatted", "one_digit_day"]))
+        claim="date822fmt returns 26..27 <= DATE822FMT, the same with and without buffer, and writes exactly that many bytes",
+        expect_witnesses=["formatted", "one_digit_day", "two_digit_day"]))
+    obls.append(Obl("hfield", "hfield.c", repo=["hfield.c"],
+        grid=[{"LN": n} for n in ((0, 1, 5, 8) if quick else range(0, 11))],
+        unwind_default=lambda p: max(p["LN"], 34) + 2, timeout=600,
+        functions=["hfield.c:hfield_valid", "hfield.c:hfield_known", "hfield.c:hfield_skipname", "hfield.c:hmatch"],
+        assumes=["header line of exactly LN bytes (grid), any contents, exactly-sized block"], outside=["longer lines"],
+        claim="hfield_valid/known/skipname read only inside the line; skipname <= len; known in 0..28",
+        expect_witnesses=lambda p: ["not_a_field"] + (["valid_unknown_field"] if p["LN"] >= 2 else []) + (["known_field"] if p["LN"] >= 3 else [])))
+    obls.append(Obl("headerbody", "hbody.c", progs=[Prog("headerbody.c")], repo=["hfield.c", "stralloc_cat.c", "stralloc_catb.c", "stralloc_opyb.c",
+                                                     "stralloc_opys.c", "stralloc_copy.c", "stralloc_pend.c", "stralloc_arts.c", "byte_copy.c"],
+        lib=["ideal_substdio.c", "ideal_getln.c"],
+        grid=[{"N": n} for n in ((0, 2, 4, 6, 8) if quick else range(0, 11))],
+        unwind=lambda p: {"headerbody": p["N"] + 2, "getln": p["N"] + 2, "hfield_valid": p["N"] + 2, "byte_copy": (p["N"] + 12) // 4 + 2,
+                          "stralloc_starts": 6},
+        unwind_default=lambda p: p["N"] + 13, timeout=900,
+        functions=["headerbody.c:headerbody", "headerbody.c:getsa", "hfield.c:hfield_valid"],
+        stubs=["getln/substdio: ideal streams", "stralloc_ready*: the two static strallocs are pre-sized (N+14 bytes), growth beyond is a failure"],
+        assumes=["message of exactly N bytes (grid), any bytes, at most one read error"], outside=["longer messages"],
+        claim="headerbody on every message of N bytes: no out-of-bounds access; fields before hdone, body after, hdone once",
+        expect_witnesses=lambda p: ["parsed", "read_error"] + (["invalid_first_line_becomes_body"] if p["N"] >= 1 else [])
+        + (["header_and_body"] if p["N"] >= 4 else []) + (["two_fields"] if p["N"] >= 6 else [])))
+    obls.append(Obl("commands_line", "cmds.c", progs=[Prog("commands.c")], repo=["stralloc_opys.c", "stralloc_opyb.c", "byte_copy.c",
+                                                                                  "str_chr.c", "case_diffs.c"],
+        grid=[{"N": n} for n in ((1, 4, 6, 8) if quick else range(0, 11))],
+        unwind_default=lambda p: p["N"] + 3, timeout=600,
+        functions=["commands.c:commands", "str_chr.c:str_chr", "case_diffs.c:case_diffs"],
+        stubs=["substdio_get: serves the input one byte per call and checks the destination invariant",
+               "stralloc_ready*: the static line buffer is pre-sized to exactly N+1 bytes; the extent asked for is recorded"],
+        assumes=["input of exactly N bytes (grid), any bytes, then EOF; command table of two verbs + default"],
+        outside=["longer lines (growth arithmetic: alloc_arith_stralloc_readyplus)"],
+        claim="commands(): every byte is stored at cmd.s+cmd.len inside the extent granted by stralloc_readyplus; handlers get a "
+              "NUL-terminated argument inside the buffer; no out-of-bounds access",
+        expect_witnesses=lambda p: ["eof", "no_complete_line"] + (["verb_with_argument"] if p["N"] >= 4 else [])
+        + (["verb_ab_dispatched_case_insensitively"] if p["N"] >= 3 else []) + (["two_commands"] if p["N"] >= 2 else [])))
+    for kind, nm in ((0, "control_constmap"), (1, "control_readline")):
+        obls.append(Obl(nm, "ctl.c", progs=[Prog("control.c")],
+            repo=["constmap.c", "substdio.c", "stralloc_opys.c", "stralloc_opyb.c", "stralloc_cat.c", "stralloc_catb.c", "stralloc_copy.c",
+                  "stralloc_pend.c", "byte_copy.c", "scan_ulong.c", "case_diffb.c"],
+            lib=["ideal_substdio.c", "ideal_getln.c"], sysrename=["malloc", "free", "close"], defines={"KIND": kind},
+            grid=[{"N": n} for n in (((0, 2, 3) if quick else (0, 1, 2, 3, 4)) if kind == 0 else ((0, 3, 5, 8) if quick else range(0, 11)))],
+            unwind_default=lambda p: p["N"] + 4, unwind={"constmap_init~for (h = 0;h <= cm->mask;++h)": 66} if kind == 0 else {}, timeout=900,
+            functions=["control.c:control_readfile", "control.c:control_readline", "control.c:control_readint",
+                       "control.c:striptrailingwhitespace", "constmap.c:constmap_init", "constmap.c:constmap", "constmap.c:hash"],
+            stubs=["getln/substdio: ideal streams", "open_read/close", "stralloc_ready*: pre-sized exactly (N+3)",
+                   "malloc: exactly-sized blocks out of concrete pools"],
+            assumes=["control file of exactly N bytes (grid), any bytes; lookup key 0..2 bytes; flagcolon any"],
+            outside=["longer files (constmap_init over 5 symbolic bytes: no verdict in 900 s - symbolic hash bucket index)"],
+            claim="control_readfile/readline/readint and constmap_init/constmap on any file of N bytes: no out-of-bounds access; entries "
+                  "NUL-terminated; constmap hits point into the data",
+            expect_witnesses=(lambda p: ["no_file", "open_error", "lookup_miss", "only_comments_or_blank"] + (["lookup_hit"] if p["N"] >= 1 else [])
+                              + (["two_entries"] if p["N"] >= 3 else [])) if kind == 0 else
+                             (lambda p: ["line"] + (["integer", "not_a_number"] if p["N"] >= 1 else [])
+                              + (["whitespace_stripped_or_second_line_ignored"] if p["N"] >= 2 else []))))
+    obls.append(Obl("token822_parse", "tok.c",
+        progs=[Prog("token822.c", sub=[(r"^GEN_ALLOC_(readyplus|ready|append)\(token822_alloc.*$", "", 3)])],
+        grid=[{"N": n} for n in ((0, 1, 2, 3) if quick else (0, 1, 2, 3, 4, 5))],
+        unwind_default=lambda p: p["N"] + 2, timeout=1800 if not quick else 600,
+        functions=["token822.c:token822_parse", "token822.c:atomok", "token822.c:atomcheck"],
+        stubs=["token822_ready / stralloc_ready: objects of exactly the size asked for (the GEN_ALLOC instances are removed from the copy)"],
+        assumes=["input of exactly N bytes (grid), any bytes, exactly-sized block"],
+        outside=["inputs longer than 3 (quick) / 5 (thorough) bytes; 'thousands of tokens'"],
+        claim="token822_parse: the fill pass stores exactly the tokens and characters the count pass asked for (no write outside the "
+              "exactly-sized objects), every token's text lies inside the buffer",
+        expect_witnesses=lambda p: ["parsed"] + (["syntax_error", "one_token_per_byte", "one_atom_all_bytes"] if p["N"] >= 1 else [])
+        + (["quoted_string", "comment"] if p["N"] >= 2 else [])))
+    # cdb_seek on corrupt / truncated files: the harness lives with C11 (harness/C11/cdbseek.c, MODE 1) and is a C20 obligation too
+    obls.append(Obl(
+        "cdb_seek_corrupt", "../C11/cdbseek.c", progs=[Prog("cdb_seek.c", cut=["cdb_bread"], link=True)],
+        repo=["cdb_hash.c", "cdb_unpack.c"], sysrename=["read", "lseek"], defines={"MODE": 1},
+        grid=[{"QL": 0, "NB": 40}, {"QL": 2, "NB": 40}, {"QL": 34, "NB": 64}],
+        unwind=lambda p: dict({"cdb_seek": p["NB"] // 8 + 2, "cdb_bread": 33},
+                              **({"match~while": 3, "match~for": 33, "cdb_hash": p["QL"] + 1} if p["QL"] else {})),
+        unwind_default=40, timeout=900,
+        functions=["cdb_seek.c:cdb_seek", "cdb_seek.c:match"],
+        cuts=["cdb_bread -> contract: exactly len bytes delivered or -1 (proved on the real code by C11 obligation cdb_bread)"],
+        stubs=["file: serves NB arbitrary bytes in the order they are read, then EOF; lseek accepts any offset; one injected failure"],
+        assumes=["file = any NB bytes (40/64), truncated anywhere; key block of exactly QL bytes"],
+        outside=["corrupt files that keep the reader probing for more than NB/8 slots"],
+        claim="on arbitrary/truncated file contents cdb_seek returns -1, 0 or 1 and stays inside packbuf, buf[32] and the key",
+        expect_witnesses=["absent", "truncated_file_is_an_error", "io_error", "corrupt_file_can_still_answer_found"]))
     # ---------------------------------------------------------------- spawner reports
     for prog_no, prog in ((0, "qmail-rspawn.c"), (1, "qmail-lspawn.c")):
         obls.append(Obl(
